@@ -20,7 +20,7 @@ def evaluate(case):
     ref_bfd = len(refmodels.best_fit_decreasing(values, C))
     fails = []
     counts = {}
-    for ot in OUTPUTS:
+    for ot in case.get("outputs", OUTPUTS):
         p, o = sut.run_case(dict(case, alg="bc"), ot)
         if not o.ok:
             fails.append(Failure(f"{PROP}/bc/{ot}:exception:{o.exc_type}@{o.where}", o.describe()))
@@ -49,7 +49,7 @@ def evaluate(case):
         labels.append("BFD-not-optimal")
     if ref_ffd > optimum:
         labels.append("FFD-not-optimal")
-    return Result(fails, labels, nontrivial, None, {"counts": counts, "optimum": optimum, "bfd": ref_bfd}, subcases=3)
+    return Result(fails, labels, nontrivial, None, {"counts": counts, "optimum": optimum, "bfd": ref_bfd}, subcases=len(case.get("outputs", OUTPUTS)))
 
 
 @st.composite
@@ -103,6 +103,33 @@ def random_cases(draw):
     return {"alg": "bc", "values": [min(max(v, 1), C) for v in values], "binsize": C,
             "pres": draw(st.sampled_from(["list", "list", "list", "array", "dict-str", "dict-int", "names", "names-array"])),
             "nseed": draw(st.integers(0, 5)), "profile": fam}
+
+
+@st.composite
+def medium_volume_cases(draw):
+    """3-4 planted bins, each cut into 3-4 MEDIUM parts (an eighth to a half of the bin) with a slack of 0-3: 9-14 items among which many
+    different completions fill a bin to the same level.  Cheap (10 ms), so they come in tens of thousands: what a search loses by
+    confusing two partial packings with equal bin levels shows on well under 0.1 % of them."""
+    seed = draw(st.integers(0, 2 ** 48))
+    C = [30, 50, 60, 100][seed % 4]
+    m = [3, 3, 4][(seed >> 2) % 3]
+    lo = max(1, C // 8)
+    values = []
+    for b in range(m):
+        total = C - [0, 0, 1, 2, 3][(seed >> (4 + 3 * b)) % 5]
+        parts = 3 if (seed >> (16 + b)) % 10 < 7 else 4
+        ps = None
+        for attempt in range(40):
+            cuts = sorted(set(S.splitmix(seed + 1000 * b + attempt, parts - 1, 1, total - 1)))
+            cand = [y - x for x, y in zip([0] + cuts, cuts + [total])]
+            if len(cand) == parts and min(cand) >= lo and max(cand) <= C // 2:
+                ps = cand
+                break
+        values += ps or [total // 3, total // 3, total - 2 * (total // 3)]
+    keys = S.splitmix(seed + 7, len(values), 0, 2 ** 30)
+    values = [values[i] for i in sorted(range(len(values)), key=lambda i: (keys[i], i))][:14]
+    return {"alg": "bc", "values": values, "binsize": C, "pres": "list", "nseed": 0, "profile": "medium-items-with-slack",
+            "outputs": [["BinCount"], ["BinCount"], ["Partition"], ["Sums"]][(seed >> 30) % 4]}
 
 
 def exhaustive_cases(tier):
@@ -213,6 +240,10 @@ def legs(tier):
             "<=12 items of 1..binsize, outputs Partition/Sums/BinCount, 5 presentations; oracle = exact bitmask DP; "
             "non-trivial = best-fit-decreasing is NOT optimal on the instance (the search had to find something better)",
             strategy=random_cases(), n_quick=2500, n_thorough=60000, valid=valid, floor=0.08),
+        Leg("medium-items-volume", evaluate,
+            "hypothesis: 3-4 planted bins cut into 3-4 medium parts (an eighth to a half of the bin) with slack 0-3, 9-14 items, one output "
+            "type per case: cheap cases in tens of thousands; same oracle and rule",
+            strategy=medium_volume_cases(), n_quick=16000, n_thorough=320000, valid=valid, floor=0.02),
         Leg("exhaustive-small", evaluate,
             "all multisets of <=7 items from 1..C for C in {5,6,7,8,10} (quick: 1/40 slice); same rule",
             enum=exhaustive_cases, valid=valid, exhaustive=True, scope="multisets(<=7 from 1..C), C in {5,6,7,8,10}"),
